@@ -130,6 +130,10 @@ protected:
      */
     virtual bool allowProcessReferences() { return false; }
     std::map<std::string, std::vector<frame_t>> dynamicFrames;
+    /** The quantifiers that are being parsed, innermost last: the number of scopes once theirs was open, and the binder's name
+     *  for one over a dynamic template (else empty). */
+    std::vector<std::pair<size_t, std::string>> openQuantifiers;
+    void quantifier_closed();
 
 public:
     explicit ExpressionBuilder(Document& doc);
@@ -190,6 +194,7 @@ public:
     void expr_comma() override;
     void expr_dot(const char*) override;
     void expr_deadlock() override;
+    void expr_quantifier_abandon() override;
     void expr_forall_begin(const char* name) override;
     void expr_forall_end(const char* name) override;
     void expr_exists_begin(const char* name) override;
